@@ -312,6 +312,7 @@ class YAMLSpecification(Specification):
         If any are missing, the specification is considered invalid.
         """
         try:
+            names_seen = set()
             for step in self.study:
                 # A step without a name (or one that is not a mapping) is
                 # reported by the schema validation below.
@@ -322,6 +323,15 @@ class YAMLSpecification(Specification):
                     step,
                     schema,
                 )
+
+                # Step names key the study's graph: a repeated name would
+                # silently drop the later step.
+                if name in names_seen:
+                    raise ValueError(
+                        "Step name '{}' is not unique in the study. All "
+                        "step names must be unique.".format(name)
+                    )
+                names_seen.add(name)
 
         except Exception as e:
             logger.exception(e.args)
